@@ -37,6 +37,7 @@ type pending struct {
 	done    bool        // completed by a rendezvous partner
 	env     bool        // enabled only at a cost (timer etc.)
 	site    string      // calling function and position in the code under test (trace mode only)
+	pcs     uint64      // hash of the return addresses above the shim: WHERE in the code the operation is made
 }
 
 type candKind int
@@ -283,6 +284,7 @@ func (x *Exec) point(p *pending) {
 	if x.KeepTrc {
 		p.site = callSite()
 	}
+	p.pcs = pcHash()
 	t.pend = p
 	x.schedule(t)
 	t.pend = nil
@@ -295,6 +297,19 @@ func enginePkg(fn string) bool {
 		}
 	}
 	return false
+}
+
+// pcHash identifies the place an operation is made from by the raw return addresses of the
+// innermost frames (shim frames are the same for every use of an operation, the frames above them
+// are the code under test and its caller). No symbolisation: cheap enough for every step.
+func pcHash() uint64 {
+	var pcs [10]uintptr
+	n := runtime.Callers(3, pcs[:])
+	h := uint64(1469598103934665603)
+	for _, pc := range pcs[:n] {
+		h = mix(h, uint64(pc))
+	}
+	return h
 }
 
 // callSite returns "function file:line" of the innermost frame outside verif/mc.
@@ -579,6 +594,19 @@ func (x *Exec) schedule(t *thread) {
 				costs[i] = c.cost
 			}
 			idx = x.choose(costs, "sched")
+			if x.KeepTrc {
+				var d []string
+				for i, c := range cands {
+					n := "?"
+					if c.th != nil {
+						n = fmt.Sprintf("T%d", c.th.id)
+					} else if c.env != nil {
+						n = fmt.Sprintf("env %s#%d", c.env.name, c.env.id)
+					}
+					d = append(d, fmt.Sprintf("%d:%s/cost%d", i, n, c.cost))
+				}
+				x.Trace = append(x.Trace, fmt.Sprintf("    choice #%d among [%s] -> %d", len(x.Choices())-1, strings.Join(d, " "), idx))
+			}
 		}
 		c := cands[idx]
 		if c.env != nil {
@@ -642,11 +670,16 @@ func (x *Exec) schedule(t *thread) {
 				x.ghist = append(x.ghist[:0], x.ghist[n-160:]...)
 			}
 		}
-		if n := len(u.hist); n >= 4 {
-			for k := 2; k <= 8 && 2*k <= n; k++ {
+		// A stutter loop: the same block of steps -- same operations, made from the same places in the
+		// code, with the same results -- three times in a row with nobody else stepping. (Operation
+		// kinds alone are not enough: two different API calls often go through "load a flag, take a
+		// lock" one after the other, and a thread wrongly taken for a spinner is held back until every
+		// other thread has stepped, which removes real schedules from the bounded search.)
+		if n := len(u.hist); n >= 6 {
+			for k := 2; k <= 8 && 3*k <= n; k++ {
 				same := true
 				for i := 0; i < k; i++ {
-					if u.hist[n-1-i] != u.hist[n-1-k-i] {
+					if u.hist[n-1-i] != u.hist[n-1-k-i] || u.hist[n-1-i] != u.hist[n-1-2*k-i] {
 						same = false
 						break
 					}
@@ -659,8 +692,12 @@ func (x *Exec) schedule(t *thread) {
 				}
 			}
 		}
-		u.hist = append(u.hist, hashStr(sig))
-		x.ghist = append(x.ghist, mix(uint64(u.id)+1, hashStr(sig)))
+		hs := hashStr(sig)
+		if u.pend.kind != "spin" {
+			hs = mix(hs, u.pend.pcs)
+		}
+		u.hist = append(u.hist, hs)
+		x.ghist = append(x.ghist, mix(uint64(u.id)+1, hs))
 		if x.KeepTrc {
 			x.Trace = append(x.Trace, fmt.Sprintf("T%d %s @ %s", u.id, u.pend.describe(), u.pend.site))
 		}
